@@ -216,6 +216,42 @@ def scripted_histories(ctx, pending):
         for f in (path, p1i):
             if os.path.exists(f):
                 os.remove(f)
+    # Index A; cut k trailing messages off and open (a shorter index is saved over the longer one); append other messages
+    # that bring the file back to exactly A's size; open. After every open, the index file left on disk must also load as the
+    # fresh index of the data it was just built from (or be refused).
+    for i in range(8):
+        seqs = {'n': 0}
+        ms = [gen.frame(9, bytes(rng.randrange(256) for _ in range(n)), k) for k, n in
+              enumerate(rng.sample([0, 1, 2, 3, 5, 8, 13, 21, 34], rng.choice([4, 5, 6])))]
+        k = rng.choice([1, 2, 2, 3])
+        head, tail = ms[:-k], ms[-k:]
+        a = b''.join(ms)
+        if k == 1:
+            n = len(tail[0]) - 24
+            tail2 = [gen.frame(2999, bytes(rng.randrange(256) for _ in range(n)), 90)]       # same length, other content
+            if n >= 24:
+                tail2 = [gen.frame(9, b'', 91), gen.frame(9, bytes(n - 24), 92)]              # same total, two messages
+        else:
+            tail2 = [gen.frame(9, bytes(len(m) - 24), 90 + j) for j, m in enumerate(reversed(tail))]   # lengths in another order
+        b = b''.join(head + tail2)
+        assert len(b) == len(a)
+        path = ic.write_log(a, ['t.p1log', 'capture.raw'][i % 2])
+        p1i = os.path.splitext(path)[0] + '.p1i'
+        hist = []
+        for step, content in (('open', a), ('cut-%d-messages+open' % k, b''.join(head)), ('append-to-the-old-size+open', b), ('open', b)):
+            with open(path, 'wb') as f:
+                f.write(content)
+            hist.append(step)
+            r = open_log(path)
+            replay = {'initial_file': a.hex(), 'history': list(hist), 'data': content.hex()}
+            pending.append(('open', replay, r, content))
+            if os.path.exists(p1i):
+                got = load_index(p1i, path, delete_on_error=False)
+                pending.append(('ondisk', dict(replay, note='index file left on disk by the last open'), got, content))
+            ctx.count('scripted_shrink_regrow_open')
+        for f in (path, p1i):
+            if os.path.exists(f):
+                os.remove(f)
 
 
 def run(ctx, budget):
@@ -253,6 +289,17 @@ def run(ctx, budget):
                 ctx.disagree('%s: implementation %s, model %s' % (p[0], p[2][:150], mo[:150]), p[1])
             ctx.case(lines[li - 1])
             ctx.cov['traces_validated_against_impl'] += 1
+    ondisk = [p for p in pending if p[0] == 'ondisk']
+    for p, fr in zip(ondisk, scan_oracle(ctx, [p[3] for p in ondisk])):
+        _, replay, got, d2 = p
+        ctx.case('ondisk' + json.dumps(replay, sort_keys=True), nontrivial=True)
+        if got.startswith('ok'):
+            offs = [int(x.split(':')[2]) for x in got[3:].split(',') if x]
+            if offs != fr:
+                ctx.violation('C09/index-left-on-disk-differs-from-fresh', 'the index file the last open left on disk loads with offsets %s, '
+                              'a fresh scan of the data gives %s' % (offs[:12], fr[:12]), replay)
+        elif not got.startswith('ValueError'):
+            ctx.violation('C09/index-left-on-disk-load-raised', got, replay)
     for p, fr in zip(opens, fresh):
         _, replay, r, d2 = p
         ctx.case('open' + json.dumps(replay, sort_keys=True), nontrivial=True)
